@@ -75,7 +75,12 @@ def partition (A : ArchInfo) (p : Policy) (consts : List Nat) (plen : Nat) :
   let cands := dedupNat ((conds.foldl (fun acc c =>
       let v := c.val.toNat
       around v two64 ++ [v % two32, (v / two32) * two32, (v % two32) * two32 + v / two32,
-        two64 - 1 - v, satisfying c] ++ acc) []) ++
+        two64 - 1 - v, satisfying c,
+        -- crossed halves: one half on one side of the operand's, the other half on the other side
+        (v % two32 + 1) % two32, (v / two32) * two32 + (two32 - 1),
+        ((v / two32 + two32 - 1) % two32) * two32 + (two32 - 1), ((v / two32 + 1) % two32) * two32,
+        ((v / two32 + two32 - 1) % two32) * two32 + (v % two32 + 1) % two32,
+        ((v / two32 + 1) % two32) * two32 + (v % two32 + two32 - 1) % two32] ++ acc) []) ++
       [0, 1, two32 - 1, two32, two32 + 1, two64 - 1] ++ (nums.take 12) ++ ((allNums.reverse).take 6) ++
       (nums.take 8).map (fun n => n * two32) ++ (nums.take 6).map (fun n => n * two32 + n) ++ (consts.take 6) ++ (consts.take 6).map (· * two32))
   let cands := cands.take (if plen > 300 then 14 else if plen > 100 then 24 else 48)
